@@ -12,7 +12,7 @@ import Tahoe.Mutable.PublishRunLemmas
 | "It reports an error when fewer than k shares could be placed" | `fewer_than_k_fails`, `fewer_than_k_stored_fails` (end to end) |
 | quantifier: SDMF and MDMF, create and update | one model for both: both proxies send one request per share (`finish_publishing`); `update()` differs only in the initial goal (known shares only) — covered by the arbitrary initial `writers`; tied per format by correspondence (`pub`, `rpc`, `proxy` cases of harness/props/c47.py) |
 | quantifier: failing and slow servers, failures on any write, every response ordering | all theorems quantify over arbitrary arrival lists (`Rpc.lostBefore`, `lostAfter`, refused answers, any order); a hung server = no arrival: the publish never reports (hypothesis `hfired` is Twisted's `DeferredList` contract) |
-| every share number gets a home (`update_goal`), needed for "N shares" in C14 | `update_goal_covers`; which server is chosen (fewest shares first, permuted order, round robin; never a bad or non-permitted server): correspondence only (`goal` cases) |
+| every share number gets a home (`update_goal`), needed for "N shares" in C14 | `update_goal_covers`, `update_goal_sound` (never a bad server; new homes only on permitted servers of the permuted list), `fault_free_publish_stores_all` (no failed request ⇒ all N share numbers stored); the preference order among eligible servers (fewest shares first, permuted order, round robin): correspondence only (`goal` cases) |
 -/
 namespace Tahoe.C47
 open Tahoe.Mutable Tahoe.Mutable.Pub
@@ -184,5 +184,33 @@ theorem update_goal_covers (goal : List (Nat × Nat)) (bad : List Nat) (total : 
 example : updateGoal [(0, 1)] [] 4 [(0, true), (1, true), (2, false)] = some [(0, 1), (1, 0), (0, 2), (1, 3)] := by decide
 /-- no usable server: `NotEnoughServersError` -/
 example : updateGoal [] [0] 4 [(0, true)] = none := by decide
+
+/-- `update_goal` never keeps or chooses a bad server, and a share it newly places goes to a server of the permuted
+    list that may be uploaded to. -/
+theorem update_goal_sound (goal : List (Nat × Nat)) (bad : List Nat) (total : Nat) (full : List (Nat × Bool))
+    (g : List (Nat × Nat)) (h : updateGoal goal bad total full = some g) :
+    ∀ x ∈ g, x.1 ∉ bad ∧ (x ∈ goal ∨ (x.1, true) ∈ full) :=
+  fun x hx => updateGoal_sound goal bad total full g h x hx
+
+/-- server 0 is bad (its share 1 is dropped from the goal), server 2 may not be uploaded to: everything goes to 1 -/
+example : updateGoal [(0, 1)] [0] 3 [(0, true), (1, true), (2, false)] = some [(1, 0), (1, 1), (1, 2)] := by decide
+
+/-- A publish in which no request fails stores all `N` share numbers: `update_goal` gives each a home, `publish`
+    makes one proxy per goal entry, and an answered `wrote=True` request has stored its share.  (The "recoverable
+    from N distinct shares" of C14, for a repair whose servers all answer.) -/
+theorem fault_free_publish_stores_all (goal : List (Nat × Nat)) (bad : List Nat) (total : Nat)
+    (full : List (Nat × Bool)) (g : List (Nat × Nat)) (h : updateGoal goal bad total full = some g)
+    (arrivals : List (Writer × Rpc))
+    (hall : ∀ w ∈ writersOfGoal g, ∃ rd, (w, Rpc.answered true rd) ∈ arrivals) :
+    ∀ sh, sh < total → ∃ srv, (srv, sh) ∈ storedSlots arrivals := by
+  intro sh hsh
+  obtain ⟨srv, hmem⟩ := update_goal_covers goal bad total full g h sh hsh
+  have hw : (⟨sh, srv⟩ : Writer) ∈ writersOfGoal g := List.mem_map.mpr ⟨(srv, sh), hmem, rfl⟩
+  obtain ⟨rd, harr⟩ := hall _ hw
+  exact ⟨srv, mem_storedSlots arrivals ⟨sh, srv⟩ _ harr rfl⟩
+
+example : writersOfGoal [(1, 0), (1, 1), (1, 2)] = [⟨0, 1⟩, ⟨1, 1⟩, ⟨2, 1⟩] ∧
+    storedSlots [((⟨0, 1⟩ : Writer), Rpc.answered true []), (⟨1, 1⟩, .answered true []), (⟨2, 1⟩, .answered true [])]
+      = [(1, 0), (1, 1), (1, 2)] := by decide
 
 end Tahoe.C47
